@@ -323,6 +323,7 @@ def run(chk):
                         "`consumed` is a def-use notion: the field is read (or handed to a consumer that reads it); that the reader honours Python's meaning of the field is covered by the other properties",
                         "ast.NodeTransformer.generic_visit visits every child field (CPython)"]
     chk.not_covered += ["decorators/keywords of the outermost @guppy function are handled by the decorator itself", "comprehension internals (desugar_comprehension)"]
+    comptime_call_shape(chk)
     expression_builder_keeps_operators(chk)
     comprehension_clauses(chk)
     chk.use_engine(e)
@@ -496,6 +497,69 @@ try:
             res[name] = "rejected:" + type(ex.error).__name__
     out = {"violates": res["plus_bool"] == "accepted" or res["plus_tuple"] == "accepted" or res["plus_int"] != "accepted", "observed": res,
            "required": "unary plus on a bool or a tuple has no __pos__: it must be rejected, not dropped; +x on an int is accepted"}
+except Exception as ex:
+    out = {"violates": False, "error": repr(ex)[:300]}
+shutil.rmtree(d, ignore_errors=True)
+print(json.dumps(out))
+'''
+
+
+def comptime_call_shape(chk):
+    """is_comptime_expression (cfg/builder.py): a call to comptime / py becomes a ComptimeExpr of its single
+    argument (of the tuple of its arguments when there are several); no argument is an error; and a
+    KEYWORD argument, which the expression has no use for, is an 'unsupported' error — not ignored.  Any
+    other call is not a comptime expression."""
+    from .common import ast_from_source
+    BM = "guppylang_internals.cfg.builder"
+    e = mk_engine(chk)
+    e.func_info(BM, "is_comptime_expression")
+    m = e.module(BM)
+    e.models["guppylang_internals.checker.errors.generic:UnsupportedError"] = lambda it, a, k: SObj(ClassVal("Diag", builtin=True), {"kind": "UnsupportedError", "args": tuple(a)})
+    e.models[f"{BM}:EmptyComptimeExprError"] = lambda it, a, k: SObj(ClassVal("Diag", builtin=True), {"kind": "EmptyComptimeExprError", "args": tuple(a)})
+    CASES = [("comptime(x)", "expr:x"), ("py(x + 1)", "expr:x + 1"), ("comptime(a, b)", "expr:(a, b)"), ("comptime()", "raise:EmptyComptimeExprError"), ("comptime(x, base=3)", "raise:UnsupportedError"),
+             ("py(x, k=1)", "raise:UnsupportedError"), ("comptime(k=1)", "raise"), ("comptime(a, b, k=2)", "raise:UnsupportedError"), ("f(x, k=1)", "none"), ("o.comptime(x)", "none"), ("x + 1", "none")]
+    for src, want in CASES:
+        def t(it, src=src):
+            node = ast_from_source(it, src, mode="eval").fields["body"]
+            return it.call(it.lookup_global(m, "is_comptime_expression"), [node], {})
+        paths = e.explore(t)
+
+        def post(p, want=want):
+            from . import C03 as C3
+            if want.startswith("raise"):
+                if p.kind != "raise" or not p.raised(e, "GuppyError"):
+                    return z3.BoolVal(False)
+                err = p.value.fields.get("error")
+                kind = err.fields.get("kind") if isinstance(err, SObj) else None
+                return z3.BoolVal(want == "raise" or kind == want.split(":")[1])
+            if p.kind != "return":
+                return z3.BoolVal(False)
+            if want == "none":
+                return z3.BoolVal(p.value is None)
+            r = p.value
+            ok = isinstance(r, SObj) and r.cls.name == "ComptimeExpr" and ast.unparse(C3.to_real_ext(r.fields["value"])) == ast.unparse(ast.parse(want[5:], mode="eval").body)
+            return z3.BoolVal(bool(ok))
+        chk.prove_paths(f"is_comptime_expression[{src}]:{want}", paths, post, func=f"{BM}:is_comptime_expression", replay=lambda m_: {"script": REPLAY_CKW, "input": {}})
+    chk.use_engine(e)
+
+
+REPLAY_CKW = r'''
+import tempfile, importlib.util, os, sys, shutil
+from guppylang_internals.error import GuppyError
+src = """from guppylang import guppy
+from guppylang.std.builtins import comptime
+@guppy
+def a() -> int:
+    return comptime(1 + 2, base=3)
+"""
+d = tempfile.mkdtemp(dir=os.environ.get("TMPDIR", "/var/tmp")); fn = os.path.join(d, "replay_c32k.py"); open(fn, "w").write(src)
+spec = importlib.util.spec_from_file_location("replay_c32k", fn); m = importlib.util.module_from_spec(spec); sys.modules["replay_c32k"] = m
+try:
+    spec.loader.exec_module(m)
+    try:
+        m.a.check(); out = {"violates": True, "observed": "accepted", "required": "comptime(1 + 2, base=3): the keyword argument must be rejected, not ignored"}
+    except GuppyError as ex:
+        out = {"violates": False, "observed": "rejected: " + type(ex.error).__name__}
 except Exception as ex:
     out = {"violates": False, "error": repr(ex)[:300]}
 shutil.rmtree(d, ignore_errors=True)
